@@ -172,17 +172,16 @@ macro_rules! impl_select_zero_small {
                     .as_ref()
                     .chunks(Self::SUPERBLOCK_BIT_SIZE / usize::BITS as usize)
                 {
-                    let mut first = true;
+                    // Every superblock has an entry, even if no element of the
+                    // inventory falls in it: positions in inventory_begin must
+                    // be superblock indices.
+                    inventory_begin.push(inventory.len());
                     for (i, word) in superblock.iter().copied().map(|b| !b).enumerate() {
                         let ones_in_word = (word.count_ones() as usize).min(num_ones - past_ones);
 
                         while past_ones + ones_in_word > next_quantum {
                             let in_word_index = word.select_in_word(next_quantum - past_ones);
                             let in_superblock_index = i * usize::BITS as usize + in_word_index;
-                            if first {
-                                inventory_begin.push(inventory.len());
-                                first = false;
-                            }
                             inventory.push(in_superblock_index as u32);
                             next_quantum += ones_per_inventory;
                         }
